@@ -127,18 +127,27 @@ fn wrap_labels(inner: impl Fn(&Case) -> Verdict + Send + Sync) -> impl Fn(&Case)
 
 /// metamorphic: negation flips CTI and NET; a strictly increasing re-labelling of the values leaves NET unchanged
 fn metamorphic(name: &'static str, relabel: bool) -> impl Fn(&Case) -> Verdict + Send + Sync {
+    metamorphic_m(name, if relabel { 1 } else { 0 })
+}
+/// mode 0: x -> -x; 1: x -> x^3 + x; 2: x -> x * 2^e, e in {-80, -300, -1040, 300} chosen by the stream's length (a pure function of the case)
+fn metamorphic_m(name: &'static str, mode: u8) -> impl Fn(&Case) -> Verdict + Send + Sync {
     move |case: &Case| {
+        let relabel = mode >= 1;
         let spec = case.spec();
         let n = spec.own_windows()[0];
         let h = bigs(&case.xs);
-        let h2: Vec<R> = if relabel {
+        let h2: Vec<R> = if mode == 2 {
+            // a positive factor keeps every order relation; the units reach far below f64's epsilon and far above 2^53
+            let p = pow2([-80, -300, -1040, 300][case.xs.len() % 4]);
+            h.iter().map(|x| x * &p).collect()
+        } else if relabel {
             // x -> x^3 + x (strictly increasing, non-linear) keeps every order relation
             h.iter().map(|x| x * x * x + x).collect()
         } else {
             h.iter().map(|x| -x).collect()
         };
         let (o1, o2) = (run_q(spec, &h), run_q(spec, &h2));
-        let kind = if relabel { "rank_invariance" } else { "negation" };
+        let kind = if mode == 2 { "scale_invariance" } else if relabel { "rank_invariance" } else { "negation" };
         let mut compared = 0;
         for t in 0..h.len() {
             if t + 1 < n {
@@ -221,5 +230,6 @@ pub fn clauses() -> Vec<Clause> {
     v.push(Clause::generated("C06", "C06/CTI/negation/Q", "same generator; CTI(-x) = -CTI(x) on every full window", 1200, 30_000, trend_strategy(|n| Spec::Cti(echo(), n)), metamorphic("CTI", false)).with_shard(150));
     v.push(Clause::generated("C06", "C06/NET/negation/Q", "same generator; NET(-x) = -NET(x) on every full window", 1200, 30_000, trend_strategy(|n| Spec::Net(echo(), n)), metamorphic("NET", false)).with_shard(150));
     v.push(Clause::generated("C06", "C06/NET/rank_invariance/Q", "same generator; NET(x^3 + x) = NET(x): it depends only on the order of the values", 1200, 30_000, trend_strategy(|n| Spec::Net(echo(), n)), metamorphic("NET", true)).with_shard(150));
+    v.push(Clause::generated("C06", "C06/NET/scale_invariance/Q", "same generator; NET(x * 2^e) = NET(x) for e in {-80, -300, -1040, 300} (chosen by the stream's length): order alone decides, whatever the unit - differences far below f64's epsilon still count as differences (the exact scalar reports f64's epsilon for T::epsilon())", 1200, 30_000, trend_strategy(|n| Spec::Net(echo(), n)), metamorphic_m("NET", 2)).with_shard(150));
     v
 }
